@@ -46,6 +46,12 @@ def run(rep):
         if not ok1:
             continue
         call, path = solves[0]
+        exits = [x.get("k") for x in walk(l["body"]) if x.get("k") in ("Continue", "Break", "Return")]
+        rep.check(exits == ["Continue"], "T-VALIDATE", key + "/every-example-evaluated", l["sp"],
+                  "the only way to skip an example is the malformed-example branch (no other continue/break/return in the loop)", str(exits))
+        lb = facts.unblock(l["body"])
+        nst = len(lb["stmts"]) + (1 if lb.get("expr") else 0) if lb.get("k") == "Block" else 1
+        rep.check(nst == 2, "T-VALIDATE", key + "/loop-body", l["sp"], "the loop body is: take the example's mapping (or report it), then compare the verdict", "%d statements" % nst)
         # document argument: the mapping obtained from this loop's example
         darg = peel(call["args"][1])
         from origin import Origins
@@ -128,7 +134,7 @@ def run(rep):
             if t.get("k") == "Call" and t.get("fn") and (t["fn"].endswith("::unwrap") or t["fn"].endswith("::expect") or "panicking" in t["fn"]):
                 masserts.append(t["fn"])
     rep.check(not masserts, "NO-PANIC", "NO-PANIC/validate-mir", v.sp, "MIR of validate has no assert/unwrap/expect/panic terminator outside cleanup", "; ".join(map(str, masserts)))
-    rep.floor("T-VALIDATE", 14)
+    rep.floor("T-VALIDATE", 18)
     rep.floor("NO-PANIC", 2)
     rep.exhaustive = True
     rep.assumptions.append("panics inside the solver are owned by C03; here only validate()'s own code is inspected")
